@@ -128,6 +128,49 @@ def gen_self_discovery(rng):
     return Case(rules, ops)
 
 
+def gen_cancel_drain(rng):
+    """directed: a build is cancelled while SEVERAL deferred tasks are outstanding, and two or more of them are
+    reported complete back-to-back (one schedule item: completions first, then the cancellation, or the cancellation
+    in an earlier item) - so the drain of cancelRemainingTasks finds more than one finished task queued at once and
+    must account for every one of them.  Later builds on the same engine / after a restart must be clean."""
+    rules = {1: Rule(1, 0), 2: Rule(2, 0)}
+    n = 2 + rng.below(4)
+    leaves = list(range(3, 3 + n))
+    for k in leaves:
+        r = Rule(k, 1)
+        r.sigBase = rng.below(3)
+        r.deferred = 1
+        r.statics.append((1 + rng.below(2), 1, 0))
+        rules[k] = r
+    top = 3 + n
+    t = Rule(top, 1)
+    t.deferred = 1 if rng.chance(1, 4) else 0
+    for i, k in enumerate(leaves):
+        t.statics.append((k, i + 1, rng.choice([0, 0, 0, 2])))
+    rules[top] = t
+    ops = [{"op": "M", "slot": 1, "val": 101}, {"op": "M", "slot": 2, "val": 102}]
+
+    def some(lo):
+        ks = rng.shuffle(leaves)
+        return ks[:min(len(ks), lo + rng.below(len(ks)))]
+    for rnd in range(1 + rng.below(3)):
+        items = [(0, []) for _ in range(rng.below(7))]
+        shape = rng.below(3)
+        if shape == 0:
+            items.append((1, some(2)))                       # completions and the cancellation in one item
+        elif shape == 1:
+            items += [(1, []), (0, some(2))]                 # cancelled first, completions at the next hook point
+        else:
+            items += [(0, some(1)), (1, some(2))]            # some already delivered, then several at once + cancel
+        ops.append({"op": "B", "key": top, "cancel_at": 0, "mode": 0, "items": items})
+        if rng.chance(1, 3):
+            ops.append({"op": "E"})
+        if rng.chance(1, 2):
+            ops.append({"op": "M", "slot": 1 + rng.below(2), "val": 103 + rnd})
+    ops.append({"op": "B", "key": top, "cancel_at": 0, "mode": 0, "items": [(0, some(1)) for _ in range(rng.below(4))]})
+    return Case(rules, ops)
+
+
 def gen_latent_cycle(rng):
     """directed: a cycle that exists only AFTER an input changed, and that closes through edges an earlier,
     acyclic build already RECORDED (value, single-use or must-follow).  Y = head of a chain requests input I and,
